@@ -178,6 +178,23 @@ def gen_buffer_edge(rng, size):
 
 
 # ------------------------------------------------------------------------------------ harness
+_LOGGING_BEGUN = [False]
+
+
+def _attach_log_observer(obs):
+    """Make `obs` a global log observer.  The first call *begins* logging with it, which also switches off twisted's
+    temporary stderr printer of critical events: a shard that prints a traceback per provoked failure fills its
+    stdout pipe and then blocks until the runner gets round to reading it (shards would run one after the other)."""
+    from twisted.logger import globalLogBeginner, globalLogPublisher
+
+    if not _LOGGING_BEGUN[0]:
+        _LOGGING_BEGUN[0] = True
+        globalLogBeginner.beginLoggingTo([obs], redirectStandardIO=False, discardBuffer=True)
+    else:
+        globalLogPublisher.addObserver(obs)
+
+
+
 class Harness:
     def __init__(self, ctx):
         from twisted.internet import reactor
@@ -193,7 +210,7 @@ class Harness:
         self.contents = {}
         self.log = LogCapture()
         self.pub = globalLogPublisher
-        self.pub.addObserver(self.log)
+        _attach_log_observer(self.log)
         self.site = None
         self.flow_pauses = 0
         self.written_while_paused = 0
